@@ -893,6 +893,14 @@ bool OPNMIDIplay::realTime_SysEx(const uint8_t *msg, size_t size)
     if(size < 4 || msg[0] != 0xF0 || msg[size - 1] != 0xF7)
         return false;
 
+    // Everything between F0 and F7 is 7-bit data: a byte with bit 7 set is a status byte,
+    // the message is malformed (the handlers mask the bytes they decode)
+    for(size_t i = 1; i + 1 < size; ++i)
+    {
+        if((msg[i] & 0x80) != 0)
+            return false;
+    }
+
     unsigned manufacturer = msg[1];
     unsigned dev = msg[2];
     msg += 3;
